@@ -179,7 +179,15 @@ def backend_sampling(rep, g, tier):
                 "sym": style in ("kkt", "tiny_diag"), "splu_ok": True, "script": [], "info": 0, "fmt": r.choice(["coo", "csr", "csc"])}
         if kind == 2 and not case["sym"]:
             continue
-        out = run_wrapper(case, real=True)
+        try:
+            out = run_wrapper(case, real=True)
+        except Exception as e:
+            # anything but the dedicated LinearSolverError (which run_wrapper records as outcome 1) escaping a wrapper
+            rep.failure("linsolve:foreign_exception",
+                        "%s let %s escape instead of returning a solution or raising LinearSolverError: %s (style %s)"
+                        % (KINDS[kind], type(e).__name__, str(e)[:100], style),
+                        {"kind": "oracle", "unit": "linsolve_real", "case": case, "impl": {"exc": type(e).__name__}})
+            continue
         stats["systems"] += 1
         M = A.T if case["trans"] else A
         if style == "singular":
